@@ -14,14 +14,13 @@ Local Open Scope N_scope.
 
 Section Sim.
 Variable pv : N.
-Variable sv : N.
 Variable bound : N.
 Variable u : counts.
 
 Notation okstep := (okstep pv bound).
 Notation rel := (rel pv bound).
 Notation ctx_ok := (ctx_ok bound).
-Notation P_eval := (P_eval pv sv bound u).
+Notation P_eval := (P_eval pv bound u).
 Notation eval_post := (eval_post pv bound u).
 
 Lemma okstep_trans sc e st2 F F1 F2 c c0 c1 E stL b1 E1 stL1 b2 E2 stL2 st1 :
@@ -138,7 +137,7 @@ Qed.
 Lemma eval_two n g k x1 x2 ctx c code_a va c0 code_b vb c1 c' e st sc l E stL F :
   P_eval n ->
   expression g x1 ctx c = Ok ((code_a, va), c0) -> expression g x2 ctx c0 = Ok ((code_b, vb), c1) ->
-  frag_expr pv sv bound k sc x1 = true -> frag_expr pv sv bound k sc x2 = true ->
+  frag_expr pv k sc x1 = true -> frag_expr pv k sc x2 = true ->
   ucovers u code_a -> ucovers u code_b -> c1 <= c' -> ctx_ok l F E c c' -> rel sc e st E stL ->
   exists b1 l1 b2 l2,
     cshape u l code_a b1 l1 c c0 /\ cshape u l1 code_b b2 l2 c0 c1 /\
@@ -157,10 +156,10 @@ Lemma eval_two n g k x1 x2 ctx c code_a va c0 code_b vb c1 c' e st sc l E stL F 
     end.
 Proof.
   intros IH Ha Hb Hfa Hfb Hua Hub Hc1 Hctx Hrel.
-  destruct (L_expr_all pv sv bound u g k x1 ctx c code_a va c0 sc l Ha Hfa) as (b1' & l1' & Hs1' & Hva1 & Hva2).
+  destruct (L_expr_all pv u g k x1 ctx c code_a va c0 sc l Ha Hfa) as (b1' & l1' & Hs1' & Hva1 & Hva2).
   pose proof Hs1' as (_ & Hc0 & _).
   assert (Hsb : forall l0, exists b2 l2, cshape u l0 code_b b2 l2 c0 c1 /\ c0 <= vb /\ vb < c1)
-    by (intros l0; apply (L_expr_all pv sv bound u g k x2 ctx c0 code_b vb c1 sc l0 Hb Hfb)).
+    by (intros l0; apply (L_expr_all pv u g k x2 ctx c0 code_b vb c1 sc l0 Hb Hfb)).
   destruct (Hsb l1') as (b2' & l2' & Hs2' & Hvb1 & Hvb2). pose proof Hs2' as (_ & Hc01 & _).
   assert (Hctxa : ctx_ok l F E c c0) by (eapply ctx_sub; [exact Hctx | lia | lia]).
   assert (Hfail1 : forall r1 st1, SyltSem.eval n e x1 st = (r1, st1) -> (forall v, r1 <> SyltSem.RVal v) ->
@@ -214,7 +213,7 @@ Qed.
    with V<t> already holding the literal `lit` *)
 Lemma sc_branch n g k x2 ctx cb0 code_b vb cb1 c c' e st sc l E stL F t p cond (lit go : bool) :
   P_eval n ->
-  expression g x2 ctx cb0 = Ok ((code_b, vb), cb1) -> frag_expr pv sv bound k sc x2 = true ->
+  expression g x2 ctx cb0 = Ok ((code_b, vb), cb1) -> frag_expr pv k sc x2 = true ->
   ucovers u code_b -> 1 <= count_of u t -> 1 <= count_of u vb ->
   bound <= c -> c <= cb0 -> cb1 <= c' -> c <= t < c' -> ~ (cb0 <= t < cb1) ->
   ctx_ok l F E cb0 cb1 -> rel sc e st E stL ->
@@ -232,7 +231,7 @@ Proof.
   intros IH Hb Hfb Hub Hct Hcvb Hbc Hc0 Hc1 Ht Htb Hctx Hrel Hp Hcell Hlt Hdc.
   pose proof (r_wf _ _ _ _ _ _ _ Hrel) as Hwf. pose proof (r_linv _ _ _ _ _ _ _ Hrel) as Hli.
   assert (Hsb : forall l0, exists b2 l2, cshape u l0 code_b b2 l2 cb0 cb1 /\ cb0 <= vb /\ vb < cb1)
-    by (intros l0; apply (L_expr_all pv sv bound u g k x2 ctx cb0 code_b vb cb1 sc l0 Hb Hfb)).
+    by (intros l0; apply (L_expr_all pv u g k x2 ctx cb0 code_b vb cb1 sc l0 Hb Hfb)).
   (* the block, given the block of code_b *)
   assert (Hmk : forall b2 l2, cshape u l code_b b2 l2 cb0 cb1 ->
             cshape u l (IIf cond :: (code_b ++ [IAssign t vb]) ++ [IEnd])
@@ -306,7 +305,7 @@ Definition sc_go (mid : option N) (ba : bool) : bool := match mid with Some _ =>
 (* everything after the first operand of and (mid = None, lit = false) / or (mid = Some neg_a, lit = true) *)
 Lemma sc_tail n g k x2 ctx c0 code_b vb c1 c c' e st1 sc l1 E1 stL1 F1 t fl mid va (lit ba : bool) :
   P_eval n ->
-  expression g x2 ctx c0 = Ok ((code_b, vb), c1) -> frag_expr pv sv bound k sc x2 = true -> ucovers u code_b ->
+  expression g x2 ctx c0 = Ok ((code_b, vb), c1) -> frag_expr pv k sc x2 = true -> ucovers u code_b ->
   1 <= count_of u t -> 1 <= count_of u fl -> 1 <= count_of u vb ->
   bound <= c -> c <= c0 -> c1 <= t < c' -> c1 <= fl < c' -> t <> fl ->
   (forall na, mid = Some na -> c1 <= na < c' /\ na <> t /\ na <> fl /\ 1 <= count_of u na) ->
@@ -323,7 +322,7 @@ Lemma sc_tail n g k x2 ctx c0 code_b vb c1 c c' e st1 sc l1 E1 stL1 F1 t fl mid 
     end.
 Proof.
   intros IH Hm0 Hfr Hub Hct Hcfl Hcvb Hbc Hc0 Htr' Hflr' Htfl Hmid Hvalt Hctx1 Hrel1 Hd1.
-  destruct (L_expr_all pv sv bound u g k x2 ctx c0 code_b vb c1 sc l1 Hm0 Hfr) as (_ & _ & (_ & Hc01 & _) & Hvb1 & Hvb2).
+  destruct (L_expr_all pv u g k x2 ctx c0 code_b vb c1 sc l1 Hm0 Hfr) as (_ & _ & (_ & Hc01 & _) & Hvb1 & Hvb2).
   assert (Hbt : bound <= t) by (destruct Hctx1; lia).
   assert (Hctxt : ctx_ok l1 F1 E1 t (t + 1)) by (eapply ctx_sub; [exact Hctx1 | lia | lia]).
   assert (Htr : t <= t < t + 1) by lia.
@@ -507,7 +506,7 @@ Proof.
     assert (Hia : interesting ra).
     { destruct ra; cbn in Hev; [exact I | inversion Hev; subst; exact Hint | inversion Hev; subst; exact Hint]. }
     (* structure and usage counts *)
-    destruct (L_expr_all pv sv bound u (S g') k a ctx (c + 1) code_a va ca sc l Ha Hfr) as (b0 & l0 & (_ & Hca & _) & Hva1 & Hva2).
+    destruct (L_expr_all pv u (S g') k a ctx (c + 1) code_a va ca sc l Ha Hfr) as (b0 & l0 & (_ & Hca & _) & Hva1 & Hva2).
     apply ucovers_cons in Hu as [_ Hu]. apply ucovers_app in Hu as [Hua Huc].
     assert (Hcc : 1 <= count_of u c) by (eapply Huc; [left; reflexivity | cbn [ir_uses]; left; reflexivity]).
     assert (Hcva : 1 <= count_of u va) by (eapply Huc; [left; reflexivity | cbn [ir_uses]; right; left; reflexivity]).
@@ -669,10 +668,10 @@ Proof.
         assert (Hcfl : 1 <= count_of u fl) by (apply Hu3; right; left; reflexivity).
         assert (Hcva : 1 <= count_of u va) by (apply Hu4; left; reflexivity).
         assert (Hcvb : 1 <= count_of u vb) by (eapply Huend; [left; reflexivity | right; left; reflexivity]).
-        destruct (L_expr_all pv sv bound u g k x1 ctx c code_a va c0 sc l Hm Hfr0) as (b1' & l1' & Hs1' & Hva1 & Hva2).
+        destruct (L_expr_all pv u g k x1 ctx c code_a va c0 sc l Hm Hfr0) as (b1' & l1' & Hs1' & Hva1 & Hva2).
         pose proof Hs1' as (_ & Hc0 & _).
         assert (Hsb : forall l0, exists b2 l2, cshape u l0 code_b b2 l2 c0 c1 /\ c0 <= vb /\ vb < c1)
-          by (intros l0; apply (L_expr_all pv sv bound u g k x2 ctx c0 code_b vb c1 sc l0 Hm0 Hfr)).
+          by (intros l0; apply (L_expr_all pv u g k x2 ctx c0 code_b vb c1 sc l0 Hm0 Hfr)).
         destruct (Hsb l) as (_ & _ & (_ & Hc01 & _) & Hvb1 & Hvb2).
         assert (Hctxa : ctx_ok l F E c c0) by (eapply ctx_sub; [exact Hctx | lia | unfold t in *; lia]).
         cbn [SyltSem.eval] in Hev. unfold SyltSem.bind at 1 in Hev.
@@ -731,10 +730,10 @@ Proof.
         assert (Hcva : 1 <= count_of u va) by (apply Hu4; left; reflexivity).
         assert (Hcna : 1 <= count_of u c1) by (apply Hu5; left; reflexivity).
         assert (Hcvb : 1 <= count_of u vb) by (eapply Huend; [left; reflexivity | right; left; reflexivity]).
-        destruct (L_expr_all pv sv bound u g k x1 ctx c code_a va c0 sc l Hm Hfr0) as (b1' & l1' & Hs1' & Hva1 & Hva2).
+        destruct (L_expr_all pv u g k x1 ctx c code_a va c0 sc l Hm Hfr0) as (b1' & l1' & Hs1' & Hva1 & Hva2).
         pose proof Hs1' as (_ & Hc0 & _).
         assert (Hsb : forall l0, exists b2 l2, cshape u l0 code_b b2 l2 c0 c1 /\ c0 <= vb /\ vb < c1)
-          by (intros l0; apply (L_expr_all pv sv bound u g k x2 ctx c0 code_b vb c1 sc l0 Hm0 Hfr)).
+          by (intros l0; apply (L_expr_all pv u g k x2 ctx c0 code_b vb c1 sc l0 Hm0 Hfr)).
         destruct (Hsb l) as (_ & _ & (_ & Hc01 & _) & Hvb1 & Hvb2).
         assert (Hctxa : ctx_ok l F E c c0) by (eapply ctx_sub; [exact Hctx | lia | lia]).
         cbn [SyltSem.eval] in Hev. unfold SyltSem.bind at 1 in Hev.
@@ -803,7 +802,7 @@ Proof.
     { intros c0 code_a va i xf Ha -> -> -> Hsimple Hgen Huse Hsem.
       apply ucovers_app in Hu as [Hua Hui].
       assert (Hcva : 1 <= count_of u va) by (eapply Hui; [left; reflexivity | exact Huse]).
-      destruct (L_expr_all pv sv bound u g k x ctx c code_a va c0 sc l Ha Hfrag) as (_ & _ & (_ & Hc0 & _) & Hva1 & Hva2).
+      destruct (L_expr_all pv u g k x ctx c code_a va c0 sc l Ha Hfrag) as (_ & _ & (_ & Hc0 & _) & Hva1 & Hva2).
       assert (Hctxa : ctx_ok l F E c c0) by (eapply ctx_sub; [exact Hctx | lia | lia]).
       assert (Hev' : SyltSem.bind (SyltSem.eval n e x)
                        (fun sva => match op with
